@@ -159,6 +159,12 @@ class Ctx:
             for fn in os.listdir(replay_dir):
                 if fn.endswith(".json"):
                     os.remove(os.path.join(replay_dir, fn))
+        if old and not getattr(self, "only", None):  # which listed keys this run reproduced (tools/prune_findings.py)
+            os.makedirs(replay_dir, exist_ok=True)
+            with open(os.path.join(replay_dir, f"known_{self.tier}.txt"), "w") as fh:
+                for fid, (f, keys) in sorted(old.items()):
+                    for k in sorted(keys):
+                        fh.write(f"{fid}\t{k}\n")
         printed = 0
         for v in new:
             os.makedirs(replay_dir, exist_ok=True)
